@@ -336,6 +336,7 @@ var smtPreludeGroups = []struct {
 (assert (forall ((s Int) (a Int) (b Int)) (! (=> (and (<= 0 a) (<= a b) (<= b (strlen s))) (= (strlen (substr s a b)) (- b a))) :pattern ((substr s a b)))))
 (assert (forall ((s Int) (a Int) (b Int) (i Int)) (! (=> (and (<= 0 a) (<= a b) (<= b (strlen s)) (<= 0 i) (< i (- b a))) (= (strbyte (substr s a b) i) (strbyte s (+ a i)))) :pattern ((strbyte (substr s a b) i)))))
 (assert (forall ((a Int) (b Int)) (! (= (strlen (strcat a b)) (+ (strlen a) (strlen b))) :pattern ((strcat a b)))))
+(assert (forall ((x Int)) (! (and (<= 1 (strlen (rune2str x))) (<= (strlen (rune2str x)) 4)) :pattern ((rune2str x)))))
 `},
 	{[]string{"bvand", "bvor", "bvxor", "bvshl", "bvshr", "bvnot", "bvandnot"}, `(declare-fun bvand (Int Int) Int)
 (declare-fun bvor (Int Int) Int)
